@@ -391,11 +391,12 @@ def _syncing(parameterized, parameters):
 
 
 @contextmanager
-def edit_constant(parameterized):
+def edit_constant(parameterized, _names=None):
     """
     Temporarily set parameters on Parameterized object to constant=False
     to allow editing them.
     """
+    # (_names: internal, only these constants are unlocked)
     # Only the Parameter objects of this very object are unlocked (for an
     # instance: its instance-level copies, created here if need be), so that
     # other instances and the class stay protected meanwhile and no copy made
@@ -406,7 +407,7 @@ def edit_constant(parameterized):
         for pname in list(parameterized.param.objects(instance=False)):
             # (only constants get an instance-level copy here: an object keeps
             # following its class for all the other Parameters)
-            if not existing[pname].constant:
+            if not existing[pname].constant or (_names is not None and pname not in _names):
                 continue
             pobj = parameterized.param[pname]
             if pobj.constant:
@@ -2422,7 +2423,9 @@ class Parameters:
 
             updates[pname] = new_val
 
-        with edit_constant(self_.self):
+        # (only the linked constants are unlocked: the watchers told about
+        # the new values must not be able to rebind the others meanwhile)
+        with edit_constant(self_.self, _names=updates):
             with _syncing(self_.self, updates):
                 self_.update(updates)
 
